@@ -28,8 +28,8 @@ RELATED = {
     "C05": ["C16", "C06", "C10"], "C06": ["C07", "C05"], "C07": ["C16", "C10", "C06"], "C10": ["C07", "C05"], "C11": ["C07", "C09"],
     "C08": ["C06"], "C09": ["C11"], "C12": ["C03"], "C14": ["C07"], "C15": [], "C16": ["C05"], "C17": [], "C18": [], "C19": [], "C20": [],
 }
-HIST = {"D1": "C04", "D2": "C02", "D3": "C07", "D4": "C15", "D5": "C12", "D7": "C14"}
-HIST_ALSO = {"D1": ["C03"], "D2": ["C03", "C04"], "D3": ["C10"], "D4": [], "D5": [], "D7": []}
+HIST = {"D6": "C01", "D1": "C04", "D2": "C02", "D3": "C07", "D4": "C15", "D5": "C12", "D7": "C14"}
+HIST_ALSO = {"D6": [], "D1": ["C03"], "D2": ["C03", "C04"], "D3": ["C10"], "D4": [], "D5": [], "D7": []}
 
 
 def sh(cmd, cwd=None, env=None, timeout=1800):
